@@ -1,15 +1,24 @@
-"""runs every translator (Python AST of /repo -> lean/KDVerif/Gen/*.lean)"""
+"""runs every translator (Python source of /repo -> lean/KDVerif/Gen/*.lean): all modules kdv.translate_* with a generate()"""
+import importlib
+import pkgutil
+import sys
 
 
 def main():
-    from .check import registry
-    done = set()
-    for pid, cls in sorted(registry().items()):
-        g = getattr(cls, "generate_static", None)
-        if g is not None and g not in done:
-            done.add(g)
-            g()
+    import kdv
+    rc = 0
+    for m in pkgutil.iter_modules(kdv.__path__):
+        if not m.name.startswith("translate_"):
+            continue
+        try:
+            mod = importlib.import_module(f"kdv.{m.name}")
+            out = mod.generate()
+            print(f"[gen] {m.name}: ok")
+        except Exception as e:
+            print(f"[gen] {m.name}: {type(e).__name__}: {e}", file=sys.stderr)
+            rc = 1
+    return rc
 
 
 if __name__ == "__main__":
-    main()
+    sys.exit(main())
